@@ -586,6 +586,19 @@ class UnitBuilder:
             if len(arms) != 1:
                 raise rsx.ScanError('arm: %d arms starting with %r' % (len(arms), pat))
             arm = arms[0]
+            mm = re.match(r'(after|before)-stmt\s+(\d+)$', whr)
+            if mm:
+                # statement N of a block arm (structural: counts statements, does not look at their text)
+                if not arm['block']:
+                    raise rsx.ScanError('arm %s: %s needs a block arm' % (pat, whr))
+                sub = rsx.Body(B.text[arm['body_start']:arm['body_end'] + 1])
+                st = sub.stmts()
+                n = int(mm.group(2))
+                if n < 1 or n > len(st):
+                    raise rsx.ScanError('arm %s: %s not found (arm has %d statements)' % (pat, whr, len(st)))
+                if mm.group(1) == 'after':
+                    return [(arm['body_start'] + st[n - 1][1], '\n' + text)]
+                return [(arm['body_start'] + st[n - 1][0], text)]
             if arm['block']:
                 if whr == 'start':
                     return [(arm['body_start'] + 1, '\n' + text)]
@@ -728,7 +741,7 @@ class UnitBuilder:
                                 break
                             if d2.startswith('rewrite '):
                                 t2 = d2.split()
-                                opts['rewrite'][t2[1]] = int(t2[2]) if len(t2) > 2 else None
+                                opts['rewrite'][t2[1]] = (int(t2[2]) if t2[2] != 'any' else None) if len(t2) > 2 else None
                                 cur = None
                             elif d2.startswith('sigsub ') or d2.startswith('bodysub '):
                                 mm = re.match(r'(sigsub|bodysub)\s+"(.*)"\s+=>\s+"(.*)"\s*$', d2)
